@@ -159,7 +159,7 @@ Definition E_body (f' : nat) (b : box) (cs : list box) : list event :=
   | _ =>
     (if opa i then [EOpen id BGroup] else []) ++
     (match tm i with TRegular => [ESet id GTransform] | _ => [] end) ++
-    (if is_inline (knd i) || is_page (knd i) then [] else [EPaint id LBg; EPaint id LBorder]) ++
+    (if is_inline (knd i) || is_page (knd i) then [] else EPaint id LBg :: css_own_border i) ++
     table_part_bgs b ++
     EOpen id BInner ::
     (if ovf i && negb (is_page (knd i)) then [ESet id GClip] else []) ++
@@ -206,7 +206,7 @@ Lemma paint_mk_ctx i nk cs bl fl bc :
   | _ =>
     (if opa i then [EOpen id BGroup] else []) ++
     (match tm i with TRegular => [ESet id GTransform] | _ => [] end) ++
-    (if point2_class (knd i) then [EPaint id LBg; EPaint id LBorder] else []) ++
+    (if point2_class (knd i) then EPaint id LBg :: own_border i else []) ++
     EOpen id BInner ::
     (if ovf i && negb (is_page (knd i)) then [ESet id GClip] else []) ++
     flat_map (paint MCtx) (sort_z ctx_z (filter (fun c => ctx_z c <? 0) cs)) ++
@@ -225,20 +225,19 @@ Lemma paint_mk_ctx i nk cs bl fl bc :
   end.
 Proof. reflexivity. Qed.
 
-Lemma ctx_z_node_of x : ctx_z (node_of x) = z_of (binfo x).
-Proof. unfold node_of. destruct (creates_ctx (binfo x)); reflexivity. Qed.
+Lemma zctx_zkey x : zctx (binfo x) = zkey x.
+Proof.
+  unfold zctx, zkey, z_applies, positioned.
+  destruct (negb (static (binfo x))), (fit (binfo x)), (git (binfo x)); reflexivity.
+Qed.
+
+Lemma ctx_z_node_of x : ctx_z (node_of x) = zkey x.
+Proof. rewrite <- zctx_zkey. unfold node_of. destruct (creates_ctx (binfo x)); reflexivity. Qed.
 
 Lemma zkey_part x :
   wf_from false x = true -> (creates_ctx (binfo x) = true \/ positioned (binfo x) = true) ->
   ctx_z (node_of x) = zkey x.
-Proof.
-  intros Hw H. rewrite ctx_z_node_of. unfold zkey, z_applies.
-  apply wf_from_node in Hw. unfold wf_node, wf_z, z_applies in Hw.
-  apply andb_true_iff in Hw. destruct Hw as [Hw _]. apply andb_true_iff in Hw. destruct Hw as [Hw _].
-  destruct (positioned (binfo x)) eqn:Hp; simpl in *; [reflexivity|].
-  destruct (git (binfo x)); simpl in *; [reflexivity|].
-  destruct H as [H|H]; [|discriminate]. rewrite H in Hw. simpl in Hw. now apply Z.eqb_eq in Hw.
-Qed.
+Proof. intros _ _. apply ctx_z_node_of. Qed.
 
 Lemma part_not_in_flow x : (creates_ctx (binfo x) = true \/ positioned (binfo x) = true) -> in_flow (binfo x) = false.
 Proof.
@@ -422,7 +421,7 @@ Definition P (f : nat) : Prop :=
 Lemma ctx_kind_of x : wf_from false x = true -> in_flow (binfo x) = false -> ctx_root_kind (knd (binfo x)) = true.
 Proof.
   intros Hw Hf. apply wf_from_node in Hw. unfold wf_node, wf_ctx_kind in Hw.
-  apply andb_true_iff in Hw. destruct Hw as [Hw _]. apply andb_true_iff in Hw. destruct Hw as [_ Hw].
+  apply andb_true_iff in Hw. destruct Hw as [Hw _].
   rewrite Hf in Hw. exact Hw.
 Qed.
 
@@ -469,7 +468,7 @@ Proof.
   destruct (P_all (S (2 * height t))) as [Hc [Hi Hl]].
   apply (ctx_step _ Hc Hi Hl true t _ Hw); [|lia|].
   - apply wf_from_node in Hw. unfold wf_node, wf_ctx_kind in Hw.
-    apply andb_true_iff in Hw. destruct Hw as [Hw _]. apply andb_true_iff in Hw. destruct Hw as [_ Hw].
+    apply andb_true_iff in Hw. destruct Hw as [Hw _].
     exact Hw.
   - intros y Hy. apply in_flat_map in Hy. exact Hy.
 Qed.
@@ -484,7 +483,7 @@ Proof.
   destruct (P_all f) as [Hc [Hi Hl]].
   apply (ctx_step _ Hc Hi Hl true t _ Hw); [|lia|].
   - apply wf_from_node in Hw. unfold wf_node, wf_ctx_kind in Hw.
-    apply andb_true_iff in Hw. destruct Hw as [Hw _]. apply andb_true_iff in Hw. destruct Hw as [_ Hw].
+    apply andb_true_iff in Hw. destruct Hw as [Hw _].
     exact Hw.
   - intros y Hy. apply in_flat_map in Hy. exact Hy.
 Qed.
@@ -504,7 +503,7 @@ Lemma E_page_unfold f' page :
   | _ =>
     (if opa i then [EOpen id BGroup] else []) ++
     (match tm i with TRegular => [ESet id GTransform] | _ => [] end) ++
-    (if is_inline (knd i) || is_page (knd i) then [] else [EPaint id LBg; EPaint id LBorder]) ++
+    (if is_inline (knd i) || is_page (knd i) then [] else EPaint id LBg :: css_own_border i) ++
     table_part_bgs page ++
     EOpen id BInner ::
     (if ovf i && negb (is_page (knd i)) then [ESet id GClip] else []) ++
@@ -537,13 +536,11 @@ Proof.
   rewrite K. simpl point2_class. simpl is_inline. simpl is_replaced. simpl is_page. simpl last_is_line.
   assert (TP : table_part_bgs page = []) by (unfold table_part_bgs; now rewrite K). rewrite TP.
   assert (Zk : forall c, In c (bkids page) -> ctx_z (from_box c) = zkey c).
-  { intros c Hc. specialize (Hw c Hc). apply andb_true_iff in Hw. destruct Hw as [_ Hz].
-    rewrite from_box_real. unfold real_node, zkey. unfold mk_ctx. simpl.
-    destruct (z_applies (binfo c)); simpl in *; [reflexivity|]. now apply Z.eqb_eq in Hz. }
+  { intros c Hc. rewrite from_box_real. rewrite <- zctx_zkey. reflexivity. }
   assert (Bucket : forall l, (forall x, In x l -> In x (bkids page)) ->
             flat_map (fun x => paint MCtx (from_box x)) l = flat_map (appendix_E (S (2 * height page)) SRoot) l).
   { intros l Hl. apply flat_map_ext_in. intros x Hx. specialize (Hl x Hx).
-    pose proof (Hw x Hl) as Hwx. apply andb_true_iff in Hwx. destruct Hwx as [Hwx _].
+    pose proof (Hw x Hl) as Hwx.
     apply (root_any_fuel x _ Hwx). pose proof (height_kid x page Hl). lia. }
   f_equal. f_equal. f_equal.
   destruct (tm (binfo page)); [|reflexivity|].
@@ -568,3 +565,7 @@ Proof.
             rewrite flat_map_map; apply Bucket;
             intros x Hx; apply sort_z_in, filter_In in Hx; tauto).
 Qed.
+
+(* StackingContext.z_index of the context of any box: the z-index where it applies, else 0 *)
+Lemma ctx_z_from_box b : ctx_z (from_box b) = zkey b.
+Proof. rewrite from_box_real. rewrite <- zctx_zkey. reflexivity. Qed.
